@@ -497,6 +497,7 @@ func runC03(c *core.Ctx) {
 	cfgs = allCfgs
 
 	c.Affinity(-1)
+	c03Reconfigured(c)
 	// artifact level: Issuer x Status on the ArtifactResponse itself
 	c.Group("artifact-level")
 	sp := harness.NewSP(harness.SPOpt{})
@@ -563,4 +564,77 @@ func privOf(err error) error {
 		return ire.PrivateErr
 	}
 	return err
+}
+
+// c03Reconfigured: ONE ServiceProvider value (and a struct copy of it, as per-tenant templates are made) whose own ACS URL, entity ID
+// and IdP entity ID are changed between responses. After every change, responses addressed to each combination of old and new values
+// are presented: exactly the one matching the configuration in force is accepted.
+func c03Reconfigured(c *core.Ctx) {
+	c.Group("reconfigured-sp-sequences")
+	acs := []string{samlgen.SPAcs, "https://sp.example.com/tenant-b/acs"}
+	ent := []string{samlgen.SPEntity, "https://sp.example.com/tenant-b"}
+	idpE := []string{samlgen.IDPEntity, "https://idp-b.example.com/metadata"}
+	type conf [3]int
+	var confs []conf
+	for a := 0; a < 2; a++ {
+		for e := 0; e < 2; e++ {
+			for i := 0; i < 2; i++ {
+				confs = append(confs, conf{a, e, i})
+			}
+		}
+	}
+	docFor := map[conf][]byte{}
+	for _, cf := range confs {
+		resp := samlgen.DefaultResponse()
+		resp.Issuer = samlgen.S(idpE[cf[2]])
+		resp.Destination = samlgen.S(acs[cf[0]])
+		a := samlgen.DefaultAssertion()
+		a.Issuer = samlgen.S(idpE[cf[2]])
+		a.Confirmations[0].Recipient = samlgen.S(acs[cf[0]])
+		a.Audiences = [][]string{{ent[cf[1]]}}
+		docFor[cf] = samlgen.Doc(harness.BuildResponse(resp, []*samlgen.Assertion{a}, harness.Layout{SignAssertion: true}, idp1(), spKey()))
+	}
+	for _, how := range []string{"in-place", "struct-copy"} {
+		for i1, c1 := range confs {
+			for i2, c2 := range confs {
+				if i1 == i2 {
+					continue
+				}
+				how, c1, c2 := how, c1, c2
+				key := fmt.Sprintf("reconfigure/%s/%v->%v", how, c1, c2)
+				c.Case(key, func(t *core.T) {
+					t.NonTrivial()
+					sp := harness.NewSP(harness.SPOpt{})
+					apply := func(sp *saml.ServiceProvider, cf conf) {
+						sp.AcsURL = harness.MustURL(acs[cf[0]])
+						sp.EntityID = ent[cf[1]]
+						md := *sp.IDPMetadata
+						md.EntityID = idpE[cf[2]]
+						sp.IDPMetadata = &md
+					}
+					for step, cf := range []conf{c1, c2, c1} {
+						if how == "struct-copy" && step > 0 {
+							cp := *sp
+							sp = &cp
+						}
+						apply(sp, cf)
+						for _, dc := range confs {
+							doc := docFor[dc]
+							a, err := sp.ParseXMLResponse(doc, []string{samlgen.ReqID}, harness.MustURL(acs[dc[0]]))
+							t.Impl(1)
+							checkAPIContract(t, a, err)
+							if dc == cf && err != nil {
+								t.Fail("C03/reconfigured/rejects-response-for-current-configuration", "%s step %d: the SP is now ACS=%s entity=%s IdP=%s, a response addressed exactly so is refused: %s", key, step+1, acs[cf[0]], ent[cf[1]], idpE[cf[2]], privErr(err))
+							}
+							if dc != cf && err == nil {
+								t.Fail("C03/reconfigured/accepts-response-for-another-configuration", "%s step %d: the SP is now ACS=%s entity=%s IdP=%s, yet a response for ACS=%s audience=%s issuer=%s is accepted", key, step+1, acs[cf[0]], ent[cf[1]], idpE[cf[2]], acs[dc[0]], ent[dc[1]], idpE[dc[2]])
+							}
+						}
+					}
+					t.Compared()
+					t.Outcome("reconfigured")
+				})
+			}
+		}
+	}
 }
